@@ -9,7 +9,7 @@
    also says that no other bit of any plane changes. *)
 From Coq Require Import List NArith ZArith Bool Ascii String.
 From Gatery Require Import Bits BvsDefs BvsSpec BvsLeaf BvsWords BvsCopy BvsAbs BvsOps BvsEq
-     BvsQuery BvsCmp BvsMerge BvsBig BvsSeq BvsText.
+     BvsQuery BvsCmp BvsMerge BvsBig BvsSeq BvsText BvsParse.
 Import ListNotations.
 Local Open Scope N_scope.
 
@@ -296,6 +296,33 @@ Theorem C18_print_binary : forall s,
   wf s -> (DEFINED < length (planes s))%nat -> printState false s = print_spec (abs s).
 Proof. exact printState_bin_abs. Qed.
 Print Assumptions C18_print_binary.
+
+(* literals "b..", "x..", "o.." without width prefix: bit j of plane p of the result is bit (j mod bps)
+   of digit number (j / bps) counted from the right ([digits_spec]); x/X digits are undefined *)
+Theorem C18_parse_binary_literal : forall body,
+  bin_body body = true ->
+  exists s, parseBitVector ("b"%char :: body) = Some s /\ wf s /\ clean s
+            /\ bsize s = N.of_nat (length body) /\ abs s = digits_spec 1 body.
+Proof. exact parse_binary_literal. Qed.
+Print Assumptions C18_parse_binary_literal.
+
+Theorem C18_parse_hex_literal : forall body,
+  hex_body body = true ->
+  exists s, parseBitVector ("x"%char :: body) = Some s /\ wf s /\ clean s
+            /\ bsize s = N.of_nat (length body) * 4 /\ abs s = digits_spec 4 body.
+Proof. exact parse_hex_literal. Qed.
+Print Assumptions C18_parse_hex_literal.
+
+(* octal: only up to 21 digits -- see C18_parse_octal_22_digits_refuted below *)
+Theorem C18_parse_octal_literal : forall body,
+  oct_body body = true -> (length body <= 21)%nat ->
+  exists s, parseBitVector ("o"%char :: body) = Some s /\ wf s /\ clean s
+            /\ bsize s = N.of_nat (length body) * 3 /\ abs s = digits_spec 3 body.
+Proof. exact parse_octal_literal. Qed.
+Print Assumptions C18_parse_octal_literal.
+Example ex_parse : hex_body (list_ascii_of_string "fX09") = true
+                   /\ digits_spec 4 (list_ascii_of_string "A5") = [[true;false;true;false; false;true;false;true]; repeat true 8].
+Proof. split; vm_compute; reflexivity. Qed.
 
 (* ---------------- refuted: where the real container (and hence the faithful model) does NOT
    behave like the operation on an array of bits; both are confirmed on the real library by
